@@ -537,6 +537,47 @@ def fill_check(ctx, monitor, n_quick, n_thorough, project, deps, kinds="FSD"):
 FILL_DEPS = {"Base.v", "BaseProofs.v", "F64.v", "Percent.v", "Filler.v", "Decor.v", "FillerProofs.v", "PercentProofs.v", "DecorProofs.v"}
 
 
+def opt_check(ctx, kinds):
+    """family opt: self-checking cases over the option layer (what a finished bar shows with the on-complete / on-abort filler
+    options, filler middleware order, BarID, conditional option constructors, NopStyle, AddSpinner, MustAdd and its documented
+    panic, WithWaitGroup); kinds = the case kinds this property owns"""
+    if not ctx.harness:
+        return
+    if ctx.replay:
+        rp = json.load(open(ctx.replay))
+        if rp.get("family") != "opt":
+            return
+        runs = [ctx.run_family("opt", rp.get("n", 200), seed=rp.get("run_seed", ctx.seed), model=False)]
+    elif ctx.tier == "quick":
+        runs = [ctx.run_family("opt", 200, model=False)]
+    else:
+        runs = [ctx.run_family("opt", 3000, seed=ctx.seed * 1000 + i, model=False) for i in range(2)]
+    seen = set()
+    for run in runs:
+        if run["rc"] != 0:
+            ctx.add_violation("option-layer run failed (hang or panic): " + run["log"][-1500:], "opt-run-failed",
+                              {"family": "opt", "run_seed": run["seed"], "n": run["n"]})
+            continue
+        cases = {}
+        for l in read_lines(os.path.join(run["dir"], "cases.txt")):
+            f = l.split()
+            cases[int(f[1])] = l
+        for l in read_lines(os.path.join(run["dir"], "impl.txt")):
+            f = l.split(" ", 3)
+            if f[1] not in kinds:
+                continue
+            ctx.cov["evaluations"] += 1
+            if f[2] == "OK":
+                ctx.cov["traces_validated_against_impl"] += 1
+                ctx.distinct(("opt", cases.get(int(f[0]), "")))
+            elif f[2] == "BAD":
+                sig = "opt-" + f[1]
+                if sig not in seen:
+                    seen.add(sig)
+                    ctx.add_violation("option layer: " + f[3], sig,
+                                      {"family": "opt", "run_seed": run["seed"], "n": run["n"], "k": int(f[0]), "case": cases.get(int(f[0]))})
+
+
 def dec_check(ctx, kind):
     """family dec: self-checking cases over the built-in decorators the fmt family does not reach (counters group, elapsed,
     average speed / ETA, spinner, name, conditional constructors, on-complete-or-on-abort); kind = "V" (printed value, C20)
@@ -1003,6 +1044,9 @@ def check_C03(ctx):
                        "renders only when asked)"]
     frames_check(ctx, {"OUT_CONTENT", "OUT_ROWS", "BAR_RENDER", "FINAL", "CT_FLUSHBAR", "HM_STATE", "OUT_UNEXPECTED", "RET_GET"},
                  M.c03_monitor, 200, 6000, CONT_DEPS | {"ContainerLife.v", "ContainerFlush.v", "Props/C03.v"})
+    ctx.cov["rule"] += ("; opt family: what a finished bar shows with the on-complete / on-abort filler options (messages, clear), "
+                        "filler middleware order, BarID, conditional bar and container option constructors, NopStyle, AddSpinner")
+    opt_check(ctx, {"final", "middleware", "conditional", "spinner"})
 
 
 @check
@@ -1476,7 +1520,7 @@ def check_C02(ctx):
                        "totals, abort, getters, traversals) on a container of 1-5 bars with scheduling perturbation at the hook points while "
                        "the container is ended by Wait, Shutdown, cancellation or a Wait racing with Add, then every call is repeated after "
                        "Wait; plus the container scenario families (panic / hang / late results); distinct = configuration of the case")
-    ctx.assumptions = ["documented panics are not exercised (nil reader/writer to a proxy, MustAdd after done, uninitialised WC)",
+    ctx.assumptions = ["of the documented panics only MustAdd after done is exercised (opt family: it must panic with ErrDone); nil reader/writer to a proxy and an uninitialised WC are not",
                        "a panic or a hang is observed, not excluded by proof; the theorems cover the select shapes, the exited bar and the "
                        "heap manager's end"]
     sigs = set()
@@ -1486,6 +1530,7 @@ def check_C02(ctx):
         if late_check(ctx, True, sigs):
             ctx.notes.append("late family reported")
         pq_check(ctx, sigs)
+        opt_check(ctx, {"mustadd"})
 
 
 @check
@@ -1499,6 +1544,7 @@ def check_C01(ctx):
     if ctx.harness:
         late_check(ctx, False, sigs)
         wg_check(ctx, sigs)
+        opt_check(ctx, {"waitgroup"})
 
 
 
